@@ -87,7 +87,11 @@ func makeSuite(via string, s ref.Suite) (suite otp.Suite, err error, pan any) {
 		var base otp.Suite
 		names := liveNames()
 		if len(names) > 0 && len(s.Raw)%2 == 0 {
-			base, err = otp.NewRawSuite(names[(len(s.Raw)+s.Digits+s.Hash)%len(names)])
+			idx := (len(s.Raw) + s.Digits + s.Hash) % len(names)
+			if idx < 0 {
+				idx = -idx
+			}
+			base, err = otp.NewRawSuite(names[idx])
 		} else {
 			base, err = otp.NewSuite(otp.SuiteConfig{Raw: "seed", Hash: otp.SHA512, Digits: 9, IncludeCounter: true})
 		}
@@ -378,9 +382,22 @@ func c05Cases(c *Ctx, emit func(ocraCase)) {
 	}
 	// hand-built configurations through the three construction routes
 	raws := []string{"", "OCRA-1:HOTP-SHA1-6:QN08", strings.Repeat("suite-text ", 28)}
+	// the suite text is arbitrary: a ladder of lengths (buffer-size thresholds need not be powers of two)
+	for _, n := range []int{255, 256, 257, 1000, 1500, 1711, 1712, 1800, 2047, 2048, 2049, 3000, 4096, 10000, 65536} {
+		if c.Thorough || n%3 != 0 {
+			raws = append(raws, strings.Repeat("OCRA-1:long-suite-text/", n/23+1)[:n])
+		}
+	}
 	vias := []string{viaNewSuite, viaBare, viaRawValue, viaEdited}
 	for i, s := range handBuiltSuites(rng, raws) {
-		for v := 0; v < c.N(6, 60); v++ {
+		reps := c.N(6, 60)
+		if len(s.Raw) > 400 {
+			if i%5 != 0 {
+				continue // long suite texts: every 5th configuration, one input each
+			}
+			reps = 1
+		}
+		for v := 0; v < reps; v++ {
 			kh, sec := secretFor()
 			emitWithVariants(ocraCase{KeyHex: kh, Secret: sec, Via: vias[(i+v)%4], Suite: s, Input: inputToJ(admissibleInput(rng, s, i+v*7))})
 		}
